@@ -20,3 +20,122 @@ def check(report, tier, only=None):
                      ['<PeerId as PartialOrd>', '<PeerId as PartialEq>'], {'unwind': 34, 'inputs': 'a,b: [u8;32]'}),
     ]
     kani.build_and_run('C05', ['cm'], jobs, report)
+
+
+# ----------------------------------------------------------------------------- E2: composition through the real `add`
+import re, z3
+import e2, mirdump
+from e2 import *
+from mirsym import models as MD
+from props.cmodels import *
+from props import C04
+
+
+def ob_compose(report):
+    def body(ob):
+        ex, fn, res = C04.run_add()
+        IN, OUT = C04.directions(ex)
+        own, rem = z3.BitVec('own', 256), z3.BitVec('pid(new)', 256)
+        oldname = f'conns[{rem}]'
+        has = MD.map_has_initial(Sym('conns', C04.MAPTY), rem)
+        eo, no = origin_discr(oldname), origin_discr('new')
+        rep, keep = [], []
+        for r in res:
+            if r.tag != 'return':
+                continue
+            kinds = [e[0] for e in effects(r)]
+            if 'map-insert' in kinds and 'close' in kinds:
+                rep.append(r.path.cond())
+            elif kinds == ['close']:
+                keep.append(r.path.cond())
+        if not rep or not keep:
+            return ob.done([ex], 'inconclusive', 'vacuity: no replace/keep paths in add', paths=len(res))
+        REP, KEEP = z3.Or(rep), z3.Or(keep)
+
+        def inst(f, o, r_, e_, n_):
+            return z3.substitute(f, (own, o), (rem, r_), (eo, z3.BitVecVal(e_, 64)), (no, z3.BitVecVal(n_, 64)), (has, z3.BoolVal(True)))
+        a, b = z3.BitVec('A', 256), z3.BitVec('B', 256)
+        ax, bx = z3.Bool('a_x_first'), z3.Bool('b_x_first')
+        # X is dialed by A: Outbound at A, Inbound at B; Y is dialed by B
+        keepX_A = z3.If(ax, z3.Not(inst(REP, a, b, OUT, IN)), inst(REP, a, b, IN, OUT))
+        keepX_B = z3.If(bx, z3.Not(inst(REP, b, a, IN, OUT)), inst(REP, b, a, OUT, IN))
+        # decisions are total and exclusive for the four mixed cases
+        tot = z3.And([z3.Xor(inst(REP, o, r_, e_, n_), inst(KEEP, o, r_, e_, n_))
+                      for (o, r_) in ((a, b), (b, a)) for (e_, n_) in ((IN, OUT), (OUT, IN))])
+        goal = z3.And(keepX_A == keepX_B, keepX_A == z3.UGT(a, b), tot)
+        q, m, t = solve([a != b, z3.Not(goal)])
+        sample = {'replace_paths': len(rep), 'keep_paths': len(keep), 'statement': 'forall A != B, orders: survivor(A) = survivor(B) = connection dialed by max(A,B)'}
+        if q == 'unknown':
+            return ob.done([ex], 'inconclusive', 'solver unknown', sample, paths=len(res), extra_queries=1, extra_solver=t)
+        if q == 'sat':
+            cex = {'A': hex(m.eval(a, True).as_long()), 'B': hex(m.eval(b, True).as_long()),
+                   'a_x_first': z3.is_true(m.eval(ax, True)), 'b_x_first': z3.is_true(m.eval(bx, True)),
+                   'A_keeps_X': z3.is_true(m.eval(keepX_A, True)), 'B_keeps_X': z3.is_true(m.eval(keepX_B, True))}
+            sample['counterexample'] = cex
+            o = ob.done([ex], 'violated', f'the two sides do not converge on the connection dialed by the greater id: {cex}', sample,
+                        key='compose-diverge', paths=len(res), extra_queries=1, extra_solver=t)
+            o.replay = write_replay('C05', 'compose', sample)
+            return o
+        ob.done([ex], 'held', '', sample, paths=len(res), extra_queries=1, extra_solver=t)
+    return guarded(report, 'compose_both_sides_through_add', 'the replace/keep decision of the real ActivePeersInner::add (MIR), instantiated at both peers and both arrival orders, '
+                   'keeps the same connection on both sides: the one dialed by the greater id (all 2^512 id pairs)',
+                   ['ActivePeersInner::add', 'ActivePeersInner::simultaneous_dial_tie_breaking'], {'inline_depth': 3}, body)
+
+
+def ob_late_exit(report):
+    def body(ob):
+        ex = e2.executor('anemo', CONNECTION_MODELS, max_depth=3)
+        add = find_method(ex.prog, 'ActivePeersInner', 'add')
+        rm = find_method(ex.prog, 'ActivePeersInner', 'remove_with_stable_id')
+        p = Path()
+        selfp = C04.inner_state(p)
+        p.mem[('H', 'own', 'PeerId')] = z3.BitVec('own', 256)
+        finals = []
+        ex.results = []
+        pid = z3.BitVec('pid(new)', 256)
+        oldname = f'conns[{pid}]'
+
+        def second(q, ret):
+            n1 = len(effects(Result(q, None, 'return')))
+            ex.run_fn(rm, [selfp, pid, z3.BitVec(f'sid({oldname})', 64), Sym('reason', 'types::DisconnectReason')], q, 0,
+                      lambda q2, r2: finals.append((n1, q2)), 'late')
+        ex.run_fn(add, [selfp, Ptr(('H', 'own', 'PeerId')), Sym('new', 'connection::Connection')], p, 0, second, 'add')
+        distinct = z3.BitVec(f'sid({oldname})', 64) != z3.BitVec('sid(new)', 64)   # quinn stable ids are unique per connection
+        n_rep = 0
+        for n1, q in finals:
+            if not ex.feasible(q.pc + [distinct]):
+                continue
+            effs = effects(Result(q, None, 'return'))
+            first, late = effs[:n1], effs[n1:]
+            kinds = [e[0] for e in first]
+            if 'map-insert' in kinds and 'close' in kinds:
+                n_rep += 1
+                if late:
+                    s = {'after_replace': fmt_effects(first), 'late_exit_effects': fmt_effects(late)}
+                    o = ob.done([ex], 'violated', f'the replaced connection\'s late handler exit disturbs its replacement: {fmt_effects(late)}', s,
+                                key='late-exit-disturbs', paths=len(finals))
+                    o.replay = write_replay('C05', 'late-exit', s)
+                    return o
+        if not n_rep:
+            return ob.done([ex], 'inconclusive', 'vacuity: no replace path', paths=len(finals))
+        ob.done([ex], 'held', '', {'replace_then_late_exit_paths': n_rep}, paths=len(finals))
+    return guarded(report, 'loser_late_exit_is_ignored', 'after add() replaced a connection, remove_with_stable_id(peer, stable id of the replaced one) has no effect',
+                   ['ActivePeersInner::add', 'ActivePeersInner::remove_with_stable_id'], {'steps': 2, 'assume': 'stable ids of distinct connections differ (quinn contract)'}, body)
+
+
+_check_e1 = check
+
+
+def check(report, tier, only=None):
+    _check_e1(report, tier, only)
+    report.trusted += ['z3 5.1', 'finite-map model of HashMap', 'Connection accessors uninterpreted (checked by C04 connection_accessors)']
+    for f in (ob_compose, ob_late_exit):
+        if only and not any(s in f.__name__ for s in only):
+            continue
+        f(report)
+    report.extra['mir_sha'] = mirdump.mir_sha('anemo')
+
+
+def replay(path):
+    print(open(path).read())
+    return 0
